@@ -61,7 +61,9 @@ def units(ctx):
     for nb in (15, 16, 17, 31, 32, 33, 48, 64, 65):
         yield ("bars", nb)
     for i, _ in enumerate(plans(ctx["B"])):
-        for fam in ("one", "two", "key", "three", "voices"):
+        for fam in ("one", "two", "key", "three", "voices", "fragments"):
+            if fam == "fragments" and i % 3:
+                continue
             if fam == "three" and i % 5:
                 continue
             yield (fam, i)
@@ -126,6 +128,21 @@ def gen_cases(unit, ctx):
     st, sigs = grid(plan)
     end = st[-1]
     al = alphabet(plan, p)
+    if fam == "fragments":
+        # a note cut by a bar line leaves a fragment of EVERY length 1 ... 35 in front of the line (both re-quantisation
+        # settings; the fragments are 11, 5, 7 ... ticks long, lengths no uncut input note has), alone and with a second
+        # note of the same pitch following closely
+        for b in range(1, len(st) - 1):
+            for k in range(1, 36):
+                if st[b] - k < st[b - 1]:
+                    continue
+                n1 = [st[b] - k, 36, p, 0, 64]
+                for follower in (None, [st[b] - k + 36 + 12, 6, p, 0, 50]):
+                    ns = [n1] + ([follower] if follower and follower[0] + follower[1] <= end else [])
+                    for q in (True, False):
+                        yield {"plan": plan, "keys": None, "meta": 0, "q": q,
+                               "tracks": [{"notes": ns, "cap": end}, {"notes": [], "cap": None}]}
+        return
     if fam == "voices":
         # one track with two voices (channels 1 and 0) on ONE pitch: every pair of alphabet notes that touch (one ends where
         # the other starts, same onset, same end), stored in insertion order and in the library's canonical order
